@@ -113,7 +113,7 @@ func (e *SpecEnv) resolveType(t *SType) types.Type {
 	}
 	if t.Pkg == "" {
 		switch t.Name {
-		case "bv64", "bv8", "bv32", "bv1", "intarray":
+		case "bv64", "bv8", "bv32", "bv1", "intarray", "ref":
 			return pseudoType(t.Name)
 		case "struct{}":
 			return types.NewStruct(nil, nil)
@@ -401,6 +401,12 @@ func (e *SpecEnv) objVal(o types.Object) *Val {
 			case SStr:
 				return &Val{T: oo.Type(), L: []*Term{strLit(constant.StringVal(oo.Val()))}}
 			}
+		}
+	case *types.Func:
+		// a package-level function used as a value: the same constant the executor uses
+		if oo.Pkg() != nil {
+			t := UF("fn!"+oo.Pkg().Path()+"."+oo.Name(), SInt)
+			return &Val{T: oo.Type(), L: []*Term{t}}
 		}
 	case *types.Var:
 		if oo.Pkg() != nil && oo.Parent() == oo.Pkg().Scope() {
